@@ -12,6 +12,7 @@ RULE = ('random histories over a 1-3 level hierarchy (constant Parameter / const
         'edit_constant blocks (also with other instances touched inside), reads of inst.param[p] (creates per-instance '
         'Parameter copies before/after blocks). Judged against a model: held object identity per (instance, parameter), '
         'TypeError for every forbidden attempt, flags (behavioural probe + class-level flag read) after every block. '
+        '5 % of the cases attempt rebinds while an asynchronous reference of the object is pending / being delivered; '
         '6 % of the cases run the same clauses on a shipped class (param.Time.time_type, changed through its own call interface). '
         'non-trivial = history contains an edit_constant block and a forbidden attempt after it; distinct by op-kind sequence')
 PARAMS = {
@@ -24,7 +25,7 @@ ASSUMPTIONS = [
     're-assigning the identical object may raise or not; only "the held object did not change" is required',
 ]
 REQUIRED = {'forbidden_attempts': 3000, 'blocks': 500, 'blocks_raised': 100, 'flag_probes': 2000, 'ctor_constant_reference': 50,
-            'ctor_constant_pending_reference': 50, 'library_attempts': 100}
+            'ctor_constant_pending_reference': 50, 'library_attempts': 100, 'async_attempts': 100}
 
 _st = {}
 
@@ -105,10 +106,92 @@ def library_case(idx, rng, P, rep):
     rep.case(('library', tuple(kinds)), nontrivial='call-with-time_type' in kinds)
 
 
+def async_case(idx, rng, P, rep):
+    """Constants stay protected while an asynchronous reference of the same object is being evaluated (the library
+    unlocks constants itself when it delivers a reference's value)."""
+    import asyncio
+    param = _st['param']
+
+    class AK(param.Parameterized):
+        c = param.Parameter(default=Tok(), constant=True)
+        cr = param.Parameter(default=Tok(), constant=True, allow_refs=True)
+        ar = param.Parameter(default=None, allow_refs=True)
+
+    AK.__name__ = f'AK{idx}'
+    loop = _st.setdefault('loop', asyncio.new_event_loop())
+    asyncio.set_event_loop(loop)
+    kind = rng.choice(['coroutine', 'asyncgen'])
+    target = rng.choice(['ar', 'cr'])            # the reference drives a plain or a constant parameter
+    via_ctor = rng.random() < 0.5
+    turns_before = rng.randint(0, 3)
+    problems = []
+
+    async def scenario():
+        gates = [loop.create_future(), loop.create_future()]
+        if kind == 'coroutine':
+            async def ref():
+                return await gates[0]
+        else:
+            async def ref():
+                yield await gates[0]
+                yield await gates[1]
+        if via_ctor:
+            o = AK(**{target: ref})
+        else:
+            o = AK()
+            if target == 'cr':
+                with param.parameterized.edit_constant(o):
+                    o.cr = ref
+            else:
+                o.ar = ref
+        held = o.c
+
+        async def attempts(when):
+            for how in ('set', 'update', 'name'):
+                rep.count('forbidden_attempts')
+                rep.count('async_attempts')
+                try:
+                    if how == 'set':
+                        o.c = Tok()
+                    elif how == 'update':
+                        o.param.update(c=Tok())
+                    else:
+                        o.name = f'n{Tok().k}'
+                    problems.append(('rebind-allowed-outside-block/async-reference-pending', f'{how} on a constant {when} succeeded'))
+                except TypeError:
+                    pass
+            if o.c is not held:
+                problems.append(('held-object-changed', f'constant c changed {when}'))
+        for _ in range(turns_before):
+            await asyncio.sleep(0)
+        await attempts(f'while the {kind} reference of {target!r} was pending')
+        for gi, g in enumerate(gates[:1 if kind == 'coroutine' else 2]):
+            g.set_result(Tok())
+            for _ in range(5):
+                await asyncio.sleep(0)
+            await attempts(f'after result {gi} of the {kind} reference was delivered')
+        return o
+
+    loop.run_until_complete(scenario())
+    pending = [tk for tk in asyncio.all_tasks(loop) if not tk.done()]
+    for tk in pending:
+        tk.cancel()
+    if pending:
+        loop.run_until_complete(asyncio.gather(*pending, return_exceptions=True))
+    seen = set()
+    for key, msg in problems:
+        if key not in seen:
+            seen.add(key)
+            rep.violation(f'C14/{key}', msg, case=dict(kind=kind, target=target, via_constructor=via_ctor, loop_turns_before=turns_before))
+    rep.case(('async', kind, target, via_ctor, turns_before), nontrivial=True)
+
+
 def run_case(idx, rng, P, rep):
     param = _st['param']
     if rng.random() < 0.06:
         return library_case(idx, rng, P, rep)
+    if rng.random() < 0.05:
+        return async_case(idx, rng, P, rep)
     edit_constant = param.parameterized.edit_constant
     # ---- hierarchy
     depth = rng.randint(1, 3)
